@@ -112,7 +112,18 @@ def sites_of(fn):
                 continue
             if t.get("x") and set(t.get("mac", [])) & LOG_MACROS:
                 continue
-            out.append(Site(fn, b, "assert:" + ak, "", t["sp"], t["ops"], t))
+            ops = t["ops"]
+            if ak in ("DivisionByZero", "RemainderByZero"):
+                # the assert message carries the dividend; the divisor is the operand of the
+                # compiler-generated `Eq(divisor, 0)` that defines the assert condition
+                p = vf.op_place(t["c"])
+                div = None
+                if p is not None and not p[1]:
+                    for d in fn.defs().get(p[0], []):
+                        if d[0] == "a" and d[3]["r"]["k"] == "bin" and d[3]["r"]["op"] == "Eq":
+                            div = d[3]["r"]["l"]
+                ops = [div] if div is not None else []
+            out.append(Site(fn, b, "assert:" + ak, "", t["sp"], ops, t))
         elif k == "call":
             f = t.get("f")
             if not f:
@@ -389,9 +400,19 @@ def discharge(site):
                         return g
         return None
     if k in ("assert:DivisionByZero", "assert:RemainderByZero"):
+        if not site.ops:
+            return None
         v = _const(fn, site.ops[0])
         if v is not None and v != 0:
             return "division by non-zero constant"
+        g = _const_lower_bound(fn, site, site.ops[0], 1)
+        if g:
+            return "divisor " + g
+        return None
+    if k == "windows" and len(t["a"]) == 2:
+        g = _const_lower_bound(fn, site, t["a"][1], 1)
+        if g:
+            return "window size " + g
         return None
     return None
 
